@@ -1029,10 +1029,13 @@ htp_status_t htp_tx_state_request_complete_partial(htp_tx_t *tx) {
 
     tx->request_progress = HTP_REQUEST_COMPLETE;
 
-    // Run hook REQUEST_COMPLETE.
-    htp_status_t rc = htp_hook_run_all(tx->connp->cfg->hook_request_complete, tx);
+    // Finalize sending raw data first: it may still deliver raw header
+    // data, which must not follow REQUEST_COMPLETE.
+    htp_status_t rc = htp_connp_req_receiver_finalize_clear(tx->connp);
     if (rc != HTP_OK) return rc;
-    rc = htp_connp_req_receiver_finalize_clear(tx->connp);
+
+    // Run hook REQUEST_COMPLETE.
+    rc = htp_hook_run_all(tx->connp->cfg->hook_request_complete, tx);
     if (rc != HTP_OK) return rc;
 
     // Clean-up.
@@ -1213,12 +1216,13 @@ htp_status_t htp_tx_state_response_complete_ex(htp_tx_t *tx, int hybrid_mode) {
             htp_tx_res_process_body_data_ex(tx, NULL, 0);
         }
 
-        // Run hook RESPONSE_COMPLETE.
-        htp_status_t rc = htp_hook_run_all(tx->connp->cfg->hook_response_complete, tx);
+        // Clear the data receivers hook if any. This may still deliver raw header
+        // data, so it has to happen before RESPONSE_COMPLETE is announced.
+        htp_status_t rc = htp_connp_res_receiver_finalize_clear(tx->connp);
         if (rc != HTP_OK) return rc;
 
-        // Clear the data receivers hook if any
-        rc = htp_connp_res_receiver_finalize_clear(tx->connp);
+        // Run hook RESPONSE_COMPLETE.
+        rc = htp_hook_run_all(tx->connp->cfg->hook_response_complete, tx);
         if (rc != HTP_OK) return rc;
     }
 
